@@ -123,6 +123,11 @@ impl ZXMemory {
         self.map[addr as usize / PAGE_SIZE]
     }
 
+    /// Returns count of the ram pages available on the machine
+    pub fn ram_pages_count(&self) -> usize {
+        self.ram.len() / PAGE_SIZE
+    }
+
     /// Returns mutable slice to rom page
     pub fn rom_page_data_mut(&mut self, page: u8) -> &mut [u8] {
         if (page as usize + 1) * PAGE_SIZE > self.rom.len() {
